@@ -1,5 +1,7 @@
 import ModVerif.AuditCmd
 import ModVerif.Props.C18
 import ModVerif.Tie.Pseudo
+import ModVerif.Tie.FnPseudo
 #audit_module ModVerif.Props.C18
 #audit_module ModVerif.Tie.Pseudo
+#audit_module ModVerif.Tie.FnPseudo
